@@ -200,6 +200,87 @@ theorem roundtrip_mpls_label_counterexample :
     (mplsDecSpec (mplsSerSpec { MPLS.fresh with trafficClass := 8 } []).bytes).map (fun d => (d.label, d.trafficClass))
       = some (1, 0) := by decide
 
+/-! ## Stacks written with SerializeLayers -/
+
+/-- Stack round trip PPPoE(session) / PPP / payload, written innermost-first as SerializeLayers does
+    (FixLengths on): NewPacket with LayerTypePPPoE as first decoder shows — in a packet buffer of any
+    capacity — a PPPoE layer ≈ the written one with Length fixed to the PPP header + payload length,
+    followed by a PPP layer ≈ the written one whose payload is `p` (then whatever the PPP type
+    selects: IPv4 / IPv6 / MPLS / nothing).  `|p| + 4 < 2^16`: the PPPoE length field can express it. -/
+theorem stack_roundtrip (q : PPPoE) (l : PPP) (p : Bytes) (b : SBuf) (fix1 csum1 csum2 : Bool)
+    (foreign : Bytes) (hq : wfPPPoE q) (hcode : q.code = pppoeCodeSession) (hl : wfPPP l)
+    (hp : p.length + 4 < 65536) (hb : Inv b) (hc : contents b = p) :
+    ∃ o1 o2 r q' l' more, l.serializeTo b fix1 csum1 = .ok o1 ∧ o1.err = false ∧
+      q.serializeTo o1.buf true csum2 = .ok o2 ∧ o2.err = false ∧
+      newPacket false .pppoe { vis := contents o2.buf, tail := foreign } = .ok r ∧
+      r.layers = .pppoe q' :: .ppp l' :: more ∧
+      PPPoEEquiv q' (pppoeFixed q (pppHdrBytes l ++ p) true) ∧ q'.length = (pppHdrBytes l ++ p).length ∧
+      q'.payload = pppHdrBytes l ++ p ∧ PPPEquiv l' l ∧ l'.payload = p := by
+  -- the two serializers
+  obtain ⟨c1, i1⟩ := pppSerBuf_contents l b hb
+  rw [hc] at c1
+  obtain ⟨c2, -⟩ := pppoeSerBuf_contents q (pppSerBuf l b) true i1
+  rw [c1] at c2
+  obtain ⟨hbytes, hdecL⟩ := pppDecSpec_frame l p hl
+  have hlen : (pppHdrBytes l ++ p).length < 65536 := by
+    rw [hbytes]; cases l.hasPPTPHeader <;> simp [putBe16] <;> omega
+  have hpos : (pppHdrBytes l ++ p).length ≠ 0 := by
+    rw [hbytes]; cases l.hasPPTPHeader <;> simp [putBe16]
+  generalize hP : pppHdrBytes l ++ p = P at c2 hlen hpos hdecL
+  have hfix : pppoeFixed q P true = { q with length := P.length } := by
+    unfold pppoeFixed; simp only [if_true, Nat.mod_eq_of_lt hlen]
+  have hwf : wfPPPoE (pppoeFixed q P true) := by
+    rw [hfix]; exact ⟨hq.1, hq.2.1, hq.2.2.1, hq.2.2.2.1, hlen⟩
+  have hdecQ := pppoeDecSpec_frame (pppoeFixed q P true) P hwf (by rw [hfix])
+  -- the packet
+  have hrun : ∃ more, (newPacketS false .pppoe (pppoeHdrBytes (pppoeFixed q P true) ++ P)).layers =
+      AnyLayer.pppoe { contents := pppoeHdrBytes (pppoeFixed q P true), payload := P,
+                       version := (pppoeFixed q P true).version, type := (pppoeFixed q P true).type,
+                       code := (pppoeFixed q P true).code, sessionId := (pppoeFixed q P true).sessionId,
+                       length := (pppoeFixed q P true).length } ::
+      AnyLayer.ppp { contents := putBe16 l.pppType, payload := p, pppType := l.pppType,
+                     hasPPTPHeader := l.hasPPTPHeader } :: more := by
+    unfold newPacketS
+    simp only [Bool.false_eq_true, false_and, if_false]
+    -- fuel = |frame| + 1 = (|P| + 5) + 2
+    have hfl : (pppoeHdrBytes (pppoeFixed q P true) ++ P).length + 1 = (P.length + 5) + 1 + 1 := by
+      simp [pppoeHdrBytes, putBe16]
+    rw [hfl]
+    -- first layer: PPPoE, its code selects decodePPP
+    have hs1 : stepS .pppoe (pppoeHdrBytes (pppoeFixed q P true) ++ P) = some
+        { beh := { acts := [.addLayer LayerTypePPPoE], tail := .pppoeCode (pppoeFixed q P true).code },
+          layer := some (.pppoe { contents := pppoeHdrBytes (pppoeFixed q P true), payload := P,
+                                  version := (pppoeFixed q P true).version, type := (pppoeFixed q P true).type,
+                                  code := (pppoeFixed q P true).code, sessionId := (pppoeFixed q P true).sessionId,
+                                  length := (pppoeFixed q P true).length }),
+          rest := P } := by
+      simp only [stepS, hdecQ]
+    have hcode' : (pppoeFixed q P true).code = pppoeCodeSession := by rw [hfix]; exact hcode
+    rw [runS_next _ _ _ _ _ _ .ppp hs1 rfl hpos (by simp only [resolveS, hcode']; rfl)]
+    -- second layer: PPP
+    have hs2 : stepS .ppp P = some
+        { beh := { acts := [.addLayer LayerTypePPP, .setLinkLayer], tail := .pppType l.pppType },
+          layer := some (.ppp { contents := putBe16 l.pppType, payload := p, pppType := l.pppType,
+                                hasPPTPHeader := l.hasPPTPHeader }),
+          rest := p } := by
+      simp only [stepS, hdecL]
+    obtain ⟨more, hm⟩ := runS_step_layers (P.length + 5) .ppp P
+      { layers := [] ++ [AnyLayer.pppoe _], acts := [] ++ [Act.addLayer LayerTypePPPoE], end_ := End.done } _ _ hs2 rfl
+    exact ⟨more, by rw [hm]; rfl⟩
+  obtain ⟨more, hm⟩ := hrun
+  subst hP
+  refine ⟨_, _, _,
+    { contents := pppoeHdrBytes (pppoeFixed q (pppHdrBytes l ++ p) true), payload := pppHdrBytes l ++ p,
+      version := (pppoeFixed q (pppHdrBytes l ++ p) true).version, type := (pppoeFixed q (pppHdrBytes l ++ p) true).type,
+      code := (pppoeFixed q (pppHdrBytes l ++ p) true).code,
+      sessionId := (pppoeFixed q (pppHdrBytes l ++ p) true).sessionId,
+      length := (pppoeFixed q (pppHdrBytes l ++ p) true).length },
+    { contents := putBe16 l.pppType, payload := p, pppType := l.pppType, hasPPTPHeader := l.hasPPTPHeader },
+    more, ppp_serializeTo_eq l b fix1 csum1, rfl, pppoe_serializeTo_eq q _ true csum2, rfl,
+    newPacket_eq false .pppoe _, ?_, ?_⟩
+  · simp only [c2]; exact hm
+  · exact ⟨⟨rfl, rfl, rfl, rfl, rfl⟩, by rw [hfix], rfl, ⟨rfl, rfl⟩, rfl⟩
+
 /-! ## Non-vacuity: concrete well-formed layers inside the claims -/
 
 example : wfPPP { PPP.fresh with pppType := 0x0021, hasPPTPHeader := true } ∧
